@@ -47,6 +47,7 @@ class Plain(db.Entity):
     trip = orm.Optional(Trip)
     best_of = orm.Set(Trip, reverse='best')
     weight = orm.Optional(float)
+    weight_unit = orm.Optional(str)                 # a name that CONTAINS another attribute's name: excluding it by a string must not touch `weight`
 
 
 def model():
@@ -98,7 +99,10 @@ def ref_to_dict(obj, only, exclude, with_collections, with_lazy, related_objects
 
 OPTIONS = [dict(only=o, exclude=e, with_collections=wc, with_lazy=wl, related_objects=ro)
            for o in (None, 'FIRST2', 'COLLECTIONS') for e in (None, 'LAST') for wc in (False, True) for wl in (False, True) for ro in (False, True)
-           if not (o and (wc or wl)) ] + [dict(only='STRING', exclude=None, with_collections=False, with_lazy=False, related_objects=False)]
+           if not (o and (wc or wl)) ] + [dict(only='STRING', exclude=None, with_collections=False, with_lazy=False, related_objects=False),
+                                          dict(only=None, exclude='LONGER NAME AS STRING', with_collections=True, with_lazy=True, related_objects=False),
+                                          dict(only='LONGER NAME AS STRING', exclude=None, with_collections=False, with_lazy=False, related_objects=False),
+                                          dict(only=None, exclude='TWO NAMES AS STRING', with_collections=False, with_lazy=False, related_objects=False)]
 STATES = ('loaded', 'modified', 'created')
 
 
@@ -147,6 +151,12 @@ def td_case(cfg, values):
                             o['only'] = [a.name for a in E._attrs_ if a.is_collection or a.is_relation]
                             if not o['only']: continue
                         elif o['only'] == 'STRING': o['only'] = ', '.join(names[-2:])
+                        longer = [n for n in names if any(m != n and m in n for m in names)]          # names that contain another attribute's name
+                        if 'LONGER NAME AS STRING' in (o['only'], o['exclude']):
+                            if not longer: continue
+                            if o['only']: o['only'] = longer[0]
+                            else: o['exclude'] = longer[0]
+                        if o['exclude'] == 'TWO NAMES AS STRING': o['exclude'] = '%s, %s' % (names[-1], names[1])
                         if o['exclude'] == 'LAST': o['exclude'] = names[-1:] if not o['only'] else None
                         got = obj.to_dict(**o); want = ref_to_dict(obj, **o); n += 1
                         if got != want or list(got) != list(want):
